@@ -67,7 +67,7 @@ def TASKS(tier):
     ts = []
     for ty in RANGE_TYPES:
         for p in ps:
-            ts.append(Task('range_%s_p%d' % (ty, p), 'range_tiling', {'ty': ty, 'peers': p, 'crosscheck': tier != 'quick'},
+            ts.append(Task('range_%s_p%d' % (ty, p), 'range_tiling', {'ty': ty, 'peers': p, 'crosscheck': tier != 'quick' and p <= 4},
                            bounds='T=%s, peers=%d concrete, all indices 0..peers-1; start,end,x fully symbolic '
                                   '%s' % (ty, p, ty), role='range', opts={'covers': ['end']}, budget=50))
     return ts
